@@ -231,7 +231,8 @@ def draw_case(seed: int) -> dict:
             cfg["p_ioerr"] = r.choice([0.002, 0.006, 0.02])
         cfg["restart"] = "restart" in kinds
         cfg["linger"] = "linger" in kinds
-    return {"seed": seed, "scripts": scripts, "db_n": db_n, "cfg": cfg}
+    return {"seed": seed, "scripts": scripts, "db_n": db_n, "cfg": cfg,
+            "db_from_corpus": bool(db_n) and core.rng(seed, "dbsrc").random() < 0.35}
 
 
 class Verdicts:
@@ -312,7 +313,16 @@ def run_case(case: dict, recorded=None, strict=False) -> dict:
     path = os.path.join(d, "androguard.db")
     pre_ids = []
     try:
-        if case["db_n"]:
+        if case["db_n"] and case.get("db_from_corpus"):
+            # a database written by the unchanged code at the time corpus/db was made ("an older version")
+            with open(os.path.join(core.CORPUS_DIR, "db", "sessions-%d.db" % case["db_n"]), "rb") as f:
+                data = f.read()
+            c0 = procsim._REAL_CONNECT(os.path.join(core.CORPUS_DIR, "db", "sessions-%d.db" % case["db_n"]))
+            pre_ids = [r[0] for r in c0.execute("select id from session order by id")]
+            c0.close()
+            with open(path, "wb") as f:
+                f.write(data)
+        elif case["db_n"]:
             data, pre_ids = _template(case["db_n"])
             with open(path, "wb") as f:
                 f.write(data)
@@ -418,7 +428,7 @@ def shrink(case: dict, decisions: list, target: str, budget: int = 120):
 
     def clone(c):
         return {"seed": c["seed"], "scripts": [list(s) for s in c["scripts"]], "db_n": c["db_n"],
-                "cfg": dict(c["cfg"])}
+                "cfg": dict(c["cfg"]), "db_from_corpus": c.get("db_from_corpus", False)}
 
     case, decisions = clone(case), [list(x) for x in decisions]
     # 1. drop whole processes (empty script), 2. drop trailing ops
@@ -480,7 +490,7 @@ def make_replay(case, decisions, target, minimised_from=None):
     msg = [m for s, m in out["problems"] if s == target][0]
     payload = {
         "property": PROP, "engine": "procsim", "seed": case["seed"],
-        "config": case["cfg"], "scripts": case["scripts"], "db_n": case["db_n"],
+        "config": case["cfg"], "scripts": case["scripts"], "db_n": case["db_n"], "db_from_corpus": case.get("db_from_corpus", False),
         "decisions": out["decisions"],
         "faults": [[i, d[1]] for i, d in enumerate(out["decisions"]) if d[1]],
         "violation": {"class": target.split(":")[1], "signature": target, "message": msg},
@@ -494,7 +504,8 @@ def make_replay(case, decisions, target, minimised_from=None):
 
 def replay(path: str) -> int:
     rp = core.load_replay(path)
-    case = {"seed": rp["seed"], "scripts": rp["scripts"], "db_n": rp["db_n"], "cfg": rp["config"]}
+    case = {"seed": rp["seed"], "scripts": rp["scripts"], "db_n": rp["db_n"], "cfg": rp["config"],
+            "db_from_corpus": rp.get("db_from_corpus", False)}
     out = run_case(case, recorded=rp["decisions"], strict=True)
     sigs = _sigs(out)
     want = rp["violation"]["signature"]
